@@ -108,19 +108,6 @@ def n_accessor_gap(ref, src):
     return n
 
 
-def n_restricted_kw_lt_semicolon(ref, src):
-    """return/break/continue + line terminator + explicit `;` (yields an extra empty statement)"""
-    n = 0
-    toks = ref.tokens
-    for i, k in enumerate(toks[:-1]):
-        if k.type == 'keyword' and k.text in ('return', 'break', 'continue') and \
-                toks[i + 1].type == 'punct' and toks[i + 1].text == ';' and toks[i + 1].nl_before \
-                and not (i and toks[i - 1].type == 'punct' and toks[i - 1].text == '.'):
-            src.gaps[i + 1] = ' '
-            n += 1
-    return n
-
-
 def _prop_tokens(ref):
     out = set()
     for node in walk(ref.root):
@@ -253,7 +240,6 @@ def _tok_index_at(ref, pos):
 NEUTRALISERS = [
     ('c03.getset_ident_lexed_as_accessor', n_getset_ident),
     ('c03.accessor_keyword_gap', n_accessor_gap),
-    ('c04.restricted_kw_lt_semicolon', n_restricted_kw_lt_semicolon),
     ('c04.reserved_prop_restricted_lt', n_reserved_prop_restricted_lt),
     ('c05.header_paren_markers', n_header_markers),
     ('c05.regex_after_funcdecl', n_regex_after_funcdecl),
